@@ -11,6 +11,8 @@ use crate::infra::tape::Tape;
 enum Op {
     Write { input: usize, out: usize },
     Direct(usize),
+    /// read-only accessors in the middle of the body: is_chunked, calculate_max_input(k), can_proceed
+    Query(usize),
 }
 
 struct Hist {
@@ -26,6 +28,7 @@ fn hist_json(h: &Hist) -> Value {
         "ops": h.ops.iter().map(|o| match o {
             Op::Write { input, out } => json!({"write": [input, out]}),
             Op::Direct(a) => json!({"direct": a}),
+            Op::Query(k) => json!({"query_max_input": k}),
         }).collect::<Vec<_>>(),
     })
 }
@@ -87,6 +90,19 @@ fn run_history(h: &Hist, st: &mut Stats) -> Result<(), String> {
                         }
                     }
                 }
+            }
+            Op::Query(k) => {
+                if let Some(c) = s.is_chunked() {
+                    if c {
+                        return Err(format!("op #{}: content-length body reports is_chunked() = true", i));
+                    }
+                }
+                if let Some(m) = s.max_input(k) {
+                    if m != k {
+                        return Err(format!("op #{}: calculate_max_input({}) = {} on a length-delimited body", i, k, m));
+                    }
+                }
+                st.class("accessor_mid_body");
             }
             Op::Direct(a) => {
                 let res = match s.direct(a) {
@@ -173,6 +189,9 @@ fn exec_random(t: &mut Tape, st: &mut Stats) -> Result<(), String> {
             _ => t.range(0, cap),
         };
         let is_direct = api == Api::Flow && t.chance(25);
+        if api == Api::Flow && t.chance(12) {
+            ops.push(Op::Query(t.below(5000)));
+        }
         if is_direct {
             ops.push(Op::Direct(input));
             if input as u64 <= left {
@@ -223,7 +242,7 @@ fn exec_small(t: &mut Tape, st: &mut Stats) -> Result<(), String> {
 pub static DEF: PropDef = PropDef {
     id: "C04",
     rule: "random: Content-Length N in {0..40, 41..2000, around 255/256/4096/10240/16384/65535/65536/70000, 2^32, 2^32+5, \
-2^63, u64::MAX-1, u64::MAX} x histories of 1..40 ops {write(input, out), consume_direct_write(amount)} with inputs aimed at \
+2^63, u64::MAX-1, u64::MAX} x histories of 1..40 ops {write(input, out), consume_direct_write(amount), read-only accessors (is_chunked, calculate_max_input, can_proceed)} with inputs aimed at \
 {0, remaining-1, remaining, remaining+1, random} and buffers {input..input+2, 0..12, smaller than input, 0, large}, on \
 Flow<SendBody> and Call<WithBody>; a reference counter decides each result: overshoot => Err and no change, otherwise \
 (k,k) with k = min(input, space, remaining) and output == input prefix; finished only if remaining == 0, and finished once \
